@@ -3,6 +3,7 @@ import TinysetModel.Proofs.CfgInst
 import TinysetModel.Model.Ops
 import TinysetModel.Proofs.TinySrc
 import TinysetModel.Proofs.IterSrc
+import TinysetModel.Proofs.IterDrainSrc
 /-! C04 — iteration yields every member exactly once and nothing else.
 `elems c r` is the abstraction every other theorem speaks about (membership = `∈ elems`); the
 theorems here say that the *iterator code* (`Model/Iter.lean`: `cursorOf`, `next`) produces exactly
@@ -81,112 +82,40 @@ example : Gen.iter_next_big_64 #[0, 100, 7] 100 0 2 = (some 0, 2, 1) := by decid
 /-- not vacuous: the first step over the inline set {3, 10} -/
 example : Gen.iter_next_stack_64 2 2 (3 + 2 ^ 40 * 6) 0 = (some 3, 1, 6, 3) := by decide
 
-/-! ### the whole of `Inner::next` -/
+/-! ### the whole of `Inner::next`, and iterating it -/
 
-/-- `Inner::next` of `setu64/iter.rs`: the dispatch of `internal()` on the representation (as in `srcContains64`), then
-the arm translated on every run — `Stack`, `Dense` (`loop` over words around the scan of 64 bits), `Big` (walk along
-the table), `Heap` (walk over buckets around the scan of the bitmap, `unsplit_u64`) -/
-def srcNext64 (r : Rp) (k : Cursor) : Option Nat × Cursor :=
-  match r with
-  | .empty => (none, k)
-  | .stack _ =>
-    match Gen.iter_next_stack_64 k.sz k.szLeft k.sbits k.last with
-    | (out, szLeft, sbits, last) => (out, { k with szLeft := szLeft, sbits := sbits, last := last })
-  | .heap _ _ bits a =>
-    if bits = 64 then
-      match Gen.iter_next_dense_64 a k.bits k.index k.whichbit k.szLeft with
-      | (out, i, w, l) => (out, { k with index := i, whichbit := w, szLeft := l })
-    else if bits = 0 ∨ bits > 64 then
-      match Gen.iter_next_big_64 a k.bits k.index k.szLeft with
-      | (out, i, l) => (out, { k with index := i, szLeft := l })
-    else
-      match Gen.iter_next_heap_64 a k.bits k.index k.whichbit k.szLeft with
-      | (out, i, w, l) => (out, { k with index := i, whichbit := w, szLeft := l })
-
-/-- **the iterator step of the model is the iterator step of the source**: on every representation and at every
-cursor (for an inline set: `sz_left ≤ sz ≤ 7`), whenever the model's `next` returns — and `iter_yields_elems_u64` /
-`next_is_jth` show that on a well-formed set it returns, yielding exactly the members — the translated source returns
-the same item and leaves the same cursor.  So "iteration yields every member exactly once" reaches the code of
-`setu64/iter.rs` by composition of theorems -/
+/-- **the iterator step of the model is the iterator step of the source**: `SC.srcNext64` is `Inner::next` of
+`setu64/iter.rs` — the dispatch of `internal()` on the representation (as in `srcContains64`), then the arm translated
+on every run: `Stack`, `Dense` (`loop` over words around the scan of 64 bits), `Big` (walk along the table), `Heap` (walk
+over buckets around the scan of the bitmap, `unsplit_u64`).  On every representation and at every cursor (for an inline
+set: `sz_left ≤ sz ≤ 7`), whenever the model's `next` returns, the translated source returns the same item and leaves
+the same cursor -/
 theorem next_is_the_source_u64 (r : Rp) (k : Cursor) (hst : ∀ t, r = .stack t → k.sz ≤ 7 ∧ k.szLeft ≤ k.sz)
-    (out : Option Nat) (k' : Cursor) (h : next cfg64 r k = .ok (out, k')) : srcNext64 r k = (out, k') := by
-  cases r with
-  | empty =>
-    simp only [next, Except.ok.injEq, Prod.mk.injEq] at h
-    obtain ⟨rfl, rfl⟩ := h
-    rfl
-  | stack t =>
-    obtain ⟨h7, hle⟩ := hst t rfl
-    rw [inline_step_is_the_source_u64 t k h7 hle] at h
-    simp only [srcNext64]
-    simp only [Except.ok.injEq] at h
-    exact h
-  | heap sz cap bits a =>
-    simp only [srcNext64]
-    by_cases hd : bits = 64
-    · subst hd
-      obtain ⟨h1, h2⟩ := iter_next_dense_64_eq sz cap a k out k' h
-      simp only [if_true, h1]
-      rw [← h2]
-    · by_cases hp : bits = 0 ∨ bits > 64
-      · obtain ⟨h1, h2⟩ := iter_next_big_64_eq sz cap bits a hp k out k' h
-        simp only [hd, hp, if_false, if_true, h1]
-        rw [← h2]
-      · obtain ⟨h1, h2⟩ := iter_next_heap_64_eq sz cap bits a (by omega) k out k' h
-        simp only [hd, hp, if_false, h1]
-        rw [← h2]
+    (out : Option Nat) (k' : Cursor) (h : next cfg64 r k = .ok (out, k')) : srcNext64 r k = (out, k') :=
+  srcNext64_eq r k hst out k' h
 
-/-- `Inner::next` of `setu32/iter.rs` -/
-def srcNext32 (r : Rp) (k : Cursor) : Option Nat × Cursor :=
-  match r with
-  | .empty => (none, k)
-  | .stack _ =>
-    match Gen.iter_next_stack_32 k.sz k.szLeft k.sbits k.last with
-    | (out, szLeft, sbits, last) => (out, { k with szLeft := szLeft, sbits := sbits, last := last })
-  | .heap _ _ bits a =>
-    if bits = 32 then
-      match Gen.iter_next_dense_32 a k.bits k.index k.whichbit k.szLeft with
-      | (out, i, w, l) => (out, { k with index := i, whichbit := w, szLeft := l })
-    else if bits = 0 ∨ bits > 32 then
-      match Gen.iter_next_big_32 a k.bits k.index k.szLeft with
-      | (out, i, l) => (out, { k with index := i, szLeft := l })
-    else
-      match Gen.iter_next_heap_32 a k.bits k.index k.whichbit k.szLeft with
-      | (out, i, w, l) => (out, { k with index := i, whichbit := w, szLeft := l })
-
-/-- `SetU32`: the cursor's `bits` is a `u32`, a dense bitset has at most 2^27 words (its members are `u32`), and the
-next inline member is a `u32` -/
-theorem next_is_the_source_u32 (r : Rp) (k : Cursor) (hk32 : k.bits < 2 ^ 32)
-    (hst : ∀ t, r = .stack t → k.sz ≤ 6 ∧ k.szLeft ≤ k.sz ∧
-      (if k.szLeft = k.sz then k.sbits % 2 ^ (TinyC.widths TinyC.codec32 k.sz).getD (k.sz - k.szLeft) 0
-       else k.last + 1 + k.sbits % 2 ^ (TinyC.widths TinyC.codec32 k.sz).getD (k.sz - k.szLeft) 0) < 2 ^ 32)
+/-- `SetU32` (`SC.srcNext32`: `setu32/iter.rs`): the cursor's `bits` is a `u32`, a dense bitset has at most 2^27 words
+(its members are `u32`), and the item the model yields is a `u32` (`Some(self.last as u32)`) -/
+theorem next_is_the_source_u32 (r : Rp) (k : Cursor)
+    (hk32 : ∀ sz cap bits a, r = .heap sz cap bits a → k.bits < 2 ^ 32)
+    (hst : ∀ t, r = .stack t → k.sz ≤ 6 ∧ k.szLeft ≤ k.sz)
     (hdn : ∀ sz cap a, r = .heap sz cap 32 a → a.size ≤ 2 ^ 27)
-    (out : Option Nat) (k' : Cursor) (h : next cfg32 r k = .ok (out, k')) : srcNext32 r k = (out, k') := by
-  cases r with
-  | empty =>
-    simp only [next, Except.ok.injEq, Prod.mk.injEq] at h
-    obtain ⟨rfl, rfl⟩ := h
-    rfl
-  | stack t =>
-    obtain ⟨h7, hle, hlt⟩ := hst t rfl
-    rw [inline_step_is_the_source_u32 t k h7 hle hlt] at h
-    simp only [srcNext32]
-    simp only [Except.ok.injEq] at h
-    exact h
-  | heap sz cap bits a =>
-    simp only [srcNext32]
-    by_cases hd : bits = 32
-    · subst hd
-      obtain ⟨h1, h2⟩ := iter_next_dense_32_eq sz cap a (hdn sz cap a rfl) k out k' h
-      simp only [if_true, h1]
-      rw [← h2]
-    · by_cases hp : bits = 0 ∨ bits > 32
-      · obtain ⟨h1, h2⟩ := iter_next_big_32_eq sz cap bits a hp k hk32 out k' h
-        simp only [hd, hp, if_false, if_true, h1]
-        rw [← h2]
-      · obtain ⟨h1, h2⟩ := iter_next_heap_32_eq sz cap bits a (by omega) k hk32 out k' h
-        simp only [hd, hp, if_false, h1]
-        rw [← h2]
+    (out : Option Nat) (k' : Cursor) (h : next cfg32 r k = .ok (out, k'))
+    (hout : ∀ x, out = some x → x < 2 ^ 32) : srcNext32 r k = (out, k') :=
+  srcNext32_eq r k hk32 hst hdn out k' h hout
+
+/-- **the property, about the source's own iterator code**: calling the translated `Inner::next` of `setu64/iter.rs`
+on a fresh cursor over ANY well-formed set until it answers `None` (`SC.srcDrain64`; `len + 1` calls suffice) yields
+exactly the members — each once, nothing else, in the order of `elems` — and then `None` -/
+theorem source_iteration_yields_elems_u64 {r : Rp} (wf : WF cfg64 r) :
+    srcDrain64 r ((elems cfg64 r).length + 1) (cursorOf r) = elems cfg64 r := srcDrain64_eq_elems wf
+/-- `SetU32` (a dense bitset of at most 2^27 words — what holds `u32` members; `(index as u32) << 5` then shifts
+nothing out) -/
+theorem source_iteration_yields_elems_u32 {r : Rp} (wf : WF cfg32 r)
+    (hdn : ∀ sz cap a, r = .heap sz cap 32 a → a.size ≤ 2 ^ 27) :
+    srcDrain32 r ((elems cfg32 r).length + 1) (cursorOf r) = elems cfg32 r := srcDrain32_eq_elems wf hdn
+/-- not vacuous: the translated iterator run over the inline set {3, 10} -/
+example : srcDrain64 (.stack ⟨2, 3 + 2 ^ 40 * 6⟩) 3 (cursorOf (.stack ⟨2, 3 + 2 ^ 40 * 6⟩)) = [3, 10] := by decide
 
 /-- not vacuous: a bitmap table with 4-bit bitmaps, bucket key 2 holding offsets 1 and 3 (members 9, 11): from
 whichbit 2 the scan finds bit 3 -/
